@@ -108,7 +108,11 @@ func applyKcOp(rb *builder.RuleBuilder, op kcOp) (err error, pan string) {
 	case "incr":
 		err = rb.BuildRuleWithIncremental(op.Text)
 	case "remove":
+		before := append([]string{}, op.Names...)
 		err = rb.RemoveRules(op.Names)
+		if fmt.Sprint(before) != fmt.Sprint(op.Names) { // the list belongs to the caller, who may hand it in again
+			pan = fmt.Sprintf("RemoveRules changed the name list it was handed: %v -> %v", before, op.Names)
+		}
 	default:
 		err = fmt.Errorf("unknown op kind %q", op.Kind)
 	}
